@@ -2,6 +2,7 @@ package main
 
 import (
 	"fmt"
+	"sort"
 
 	rhp2 "go.sia.tech/core/rhp/v2"
 	rhp4 "go.sia.tech/core/rhp/v4"
@@ -246,6 +247,39 @@ func freeCase(b *harness.B, leaves []H, seed uint64, freed []uint64, all bool) {
 	}
 	if !accept(b, name, wit, func() bool { return verify(th, lh, freed, oldRoot, newRoot) }) {
 		return
+	}
+	// the new root that the builder's proof certifies must be the root of a list holding exactly the sectors that
+	// were NOT named (in whatever order swap-and-trim leaves them): "free these indices" means these and no others
+	{
+		want := map[H]int{}
+		isFreed := map[uint64]bool{}
+		for _, f := range freed {
+			isFreed[f] = true
+		}
+		for i, l := range leaves {
+			if !isFreed[uint64(i)] {
+				want[l]++
+			}
+		}
+		got := map[H]int{}
+		for _, l := range newList {
+			got[l]++
+		}
+		same := len(got) == len(want)
+		for k, v := range want {
+			same = same && got[k] == v
+		}
+		b.Eval(1)
+		b.Count("free_survivor_sets_compared", 1)
+		if !same {
+			order := "unsorted-indices"
+			if sort.SliceIsSorted(freed, func(i, j int) bool { return freed[i] > freed[j] }) {
+				order = "descending-indices"
+			} else if sort.SliceIsSorted(freed, func(i, j int) bool { return freed[i] < freed[j] }) {
+				order = "ascending-indices"
+			}
+			b.Violate("C16/complete/VerifyFreeSectorsProof/certified-new-root-keeps-a-freed-sector-and-drops-an-unfreed-one/"+order, fmt.Sprintf("freeing indices %v of %d sectors: the new root accepted with the builder's proof is the root of a list that still holds a named sector and lacks a sector that was not named", freed, n), wit())
+		}
 	}
 	diffTampers(b, name, wit, th, lh, all, func(th, lh []H, o, nw H) bool { return verify(th, lh, freed, o, nw) }, oldRoot, newRoot)
 
